@@ -18,6 +18,7 @@ C07 driver: one JSON request per line on stdin, one JSON answer per line on stdo
   {"op":"agree","fresh":OBS,"after":OBS}   OBS = {"kind":..,"files":[[name,[lines]]..],"found":[..]}
       -> {"holds":bool,"why":..}
   {"op":"witness","name":..,"history":[..],"probe":..,"on":..} -> {"match":bool,"expected":[..],"got":[..]}
+  {"op":"uname","name":..,"idx":n,"cls":bool} -> {"name": model of cpp_vars.unique_name}
 
 The defaults tables are the ones regenerated from /repo (Generated/C07Defaults.lean).
 Run: lake env lean --run FaxVerif/C07/Driver.lean
@@ -254,6 +255,8 @@ def handle (line : String) : String :=
       if op == "run" then doRun j
       else if op == "agree" then doAgree j
       else if op == "witness" then doWitness j
+      else if op == "uname" then
+        pure (Json.mkObj [("name", uniqueName (← getS j "name") (← getN j "idx") (← (← j.getObjVal? "cls").getBool?))])
       else throw s!"unknown op {op}"
     match r with
     | .ok j => j.compress
